@@ -1,5 +1,8 @@
 """C07 — normalise returns a well-formed sequence with the same duration and sound."""
+import json
+
 import gens as G
+import h4seq_util as U
 import pyimpl as P
 from oracle_util import *  # noqa
 from protocol import from_real
@@ -48,10 +51,68 @@ def run_normalise(rel):
     return [from_real(m) for m in s._messages]
 
 
+OBS = " ## observed="
+
+
+def normalise_objects(objs, first_occurrence_bug):
+    """harness-side model of normalise_relative on a list of (object id, plain message): nested notes collapse to the outermost pair, orphan
+    note-offs and repeated signatures go, waits are consolidated, and every note-on still open at the end is taken out again.  With
+    `first_occurrence_bug` the last step removes the FIRST element that IS that object (what `list.remove` does when an object occurs twice:
+    known finding D24c); without it, the element at the position where the unclosed note-on was kept."""
+    open_, out = {}, []           # out: [position in objs or None, object id or None, message]
+    wait, cur_ts, cur_key, default_ch = 0, None, None, None
+    for pos, (oid, m) in enumerate(objs):
+        if default_ch is None and m[CH] is not None:
+            default_ch = m[CH]
+        open_.setdefault(m[CH], {})
+        if m[TY] == WAIT:
+            wait += m[TIME]
+            continue
+        if m[TY] == ON:
+            lst = open_[m[CH]].setdefault(m[NOTE], [])
+            lst.append((pos, oid))
+            if len(lst) != 1:
+                continue
+        elif m[TY] == OFF:
+            lst = open_[m[CH]].get(m[NOTE], [])
+            if not lst:
+                continue
+            lst.pop()
+            if lst:
+                continue
+        elif m[TY] == TIMESIG:
+            if (m[NUM], m[DEN]) == cur_ts:
+                continue
+            cur_ts = (m[NUM], m[DEN])
+        elif m[TY] == KEYSIG:
+            if m[KEY] == cur_key:
+                continue
+            cur_key = m[KEY]
+        if wait > 0:
+            out.append([None, None, G.pm(WAIT, m[CH], wait)])
+            wait = 0
+        out.append([pos, oid, m])
+    if wait > 0:
+        out.append([None, None, G.pm(WAIT, default_ch, wait)])
+    for ch in open_:
+        for note in open_[ch]:
+            for (pos, oid) in open_[ch][note]:
+                idx = next((i for i, x in enumerate(out) if (x[1] == oid if first_occurrence_bug else x[0] == pos) and x[1] is not None), None)
+                if idx is not None:
+                    del out[idx]
+    return [x[2] for x in out]
+
+
+def _aliased_objs(inp):
+    parts = [[tuple(m) for m in p] for p in inp["aliased_parts"]]
+    return [((i, j), m) for i in inp["order"] for j, m in enumerate(parts[i])]
+
+
 def o_normalise(inp):
     rel = [tuple(m) for m in inp["rel"]]
+    observed = None
     if inp.get("aliased_parts"):
-        # R.concatenate([P, Q, P]): the message objects of P occur twice in R (known finding D24c)
+        # R.concatenate([P, Q, P]): the message objects of P occur twice in R (known finding D24c); the result is read off R's own relative list
         parts = [[tuple(m) for m in p] for p in inp["aliased_parts"]]
         objs = [P.seq_of_rel(p) for p in parts]
         s = P.Sequence()
@@ -61,23 +122,41 @@ def o_normalise(inp):
             s.normalise()
         except Exception as e:
             return [("raises", f"{type(e).__name__}: {e}")]
-        out = P.content_of(s)
+        out = [from_real(m) for m in s.rel._messages]
+        observed = [list(m) for m in out]
     elif inp.get("prelude") is not None:
-        # the same Sequence object has a past (e.g. it was normalised before and edited since): judged against its content now
-        s, rel = P.seq_after_prelude(rel, inp.get("state", "rel"), inp["prelude"])
+        # the same Sequence object has a past (e.g. it was normalised before and edited since): judged against the content it has now — read
+        # off a TWIN (same construction, same past) through its own relative view, which is the list normalise() is about to work on
+        state = inp.get("state", "rel")
+        a0, r0 = U.read_direct(P.seq_in_state(rel, state), "rel-first")
+        if U.content_rel(r0) != U.content_rel(rel) or U.content_abs(a0) != U.content_rel(rel):
+            return [("input-not-held", f"a Sequence built in state '{state}' from the generated list does not show that list's events and duration")]
+        s, _ = P.seq_after_prelude(rel, state, inp["prelude"])
+        twin, _ = P.seq_after_prelude(rel, state, inp["prelude"])
+        try:
+            rel = [from_real(m) for m in twin.rel._messages]
+        except Exception:
+            return [("~skip:prelude-left-it-unreadable", "")]
         try:
             s.normalise()
         except Exception as e:
             return [("raises", f"{type(e).__name__}: {e}")]
-        out = P.content_of(s)
+        out = [from_real(m) for m in s.rel._messages]
+        try:
+            out_abs = [from_real(m) for m in s.abs._messages]
+        except Exception as e:
+            return [("raises", f"reading the absolute view after normalise: {type(e).__name__}: {e}")]
+        if U.content_abs(out_abs) != U.content_rel(out):
+            return [("views", "after normalise() the two views of the Sequence differ")]
     else:
         out = run_normalise(rel)
     fails = []
     tin, din = rel_timed(rel)
     tout, dout = rel_timed(out)
+    obs = (lambda t: t) if observed is None else (lambda t: t + OBS + json.dumps(observed))
     bad = wf_violations(tout)
     if bad:
-        fails.append(("wf", f"output not well-formed: {bad[:3]}"))
+        fails.append(("wf", obs(f"output not well-formed: {bad[:3]}")))
     cur_ts, cur_ks = None, None
     for t, m in tout:
         if m[TY] == TIMESIG:
@@ -92,12 +171,12 @@ def o_normalise(inp):
         fails.append(("duration", f"duration {din} -> {dout}"))
     if balanced(tin):
         if sounding(tin) != sounding(tout):
-            fails.append(("sound", f"sounding set changed: {sounding(tin)} -> {sounding(tout)}"))
+            fails.append(("sound", obs(f"sounding set changed: {sounding(tin)} -> {sounding(tout)}")))
         twice = run_normalise(out)     # (a fresh object: idempotence of the function, not of a flagged object)
         # observable content: the timed events and the duration (the channel written on a
         # consolidated wait message is not musical content)
         if rel_timed(twice) != rel_timed(out):
-            fails.append(("idempotent", "second normalise changed the timed events or the duration"))
+            fails.append(("idempotent", obs("second normalise changed the timed events or the duration")))
     return fails
 
 
@@ -108,7 +187,21 @@ def setup(ctx):
     ctx.oracle("normalise", o_normalise)
 
     def kf_d24c(f):
-        return bool(f["input"].get("aliased_parts")) and len(set(f["input"]["order"])) < len(f["input"]["order"])
+        # normalise on a list in which an object occurs twice (a part handed to concatenate twice).  Known only for the clauses the mechanism can
+        # break (well-formedness, sound, idempotence) and only when the OUTCOME is the mechanism's: the observed list is exactly what the
+        # harness-side model gives when the unclosed note-on is removed at the FIRST position holding that object, and that differs from
+        # removing it where it stands (when the two agree the sharing is harmless and any failure is something else)
+        inp = f["input"]
+        if f["oracle"] != "normalise" or not inp.get("aliased_parts") or len(set(inp["order"])) == len(inp["order"]) \
+                or f["clause"] not in ("wf", "sound", "idempotent"):
+            return False
+        d = f.get("detail") or ""
+        if OBS not in d:
+            return False
+        observed = json.loads(d.split(OBS, 1)[1])
+        objs = _aliased_objs(inp)
+        bug, right = normalise_objects(objs, True), normalise_objects(objs, False)
+        return bug != right and observed == [list(m) for m in bug]
     ctx.kf_predicates["D24c"] = kf_d24c
 
 
@@ -141,6 +234,12 @@ def generate(ctx):
                                                 ("addRel", G.pm(TIMESIG, 0, None, num=4, den=4), None), ("concat", [rel2[:4]])])]
             ctx.count("object-with-a-past:two-channel-material")
             ctx.check("normalise", {"rel": rel2, "prelude": pre2, "state": rng.choice(P.SEQ_STATES)})
+        if i % 4 == 1:
+            # parts handed to concatenate more than once: their message objects occur several times in the receiver (D24c)
+            parts = [G.gen_ill_rel(rng, n=rng.randint(1, 4), channels=(0,), pitches=(60, 61)) for _ in range(rng.randint(1, 3))]
+            order = [rng.randrange(len(parts)) for _ in range(rng.randint(2, 4))]
+            ctx.count("aliased-parts" + (":with-repeat" if len(set(order)) < len(order) else ""))
+            ctx.check("normalise", {"rel": [], "aliased_parts": parts, "order": order})
         ctx.corr("normalise", P.op_normalise(rel))
         ctx.sample({"rel": rel})
     # exhaustive small scope: every list of <= 3 (quick) / <= 4 (thorough) messages over a 10-symbol alphabet
